@@ -199,6 +199,20 @@ def stil_case(res, case):
             bad = np.argwhere(got_r != exp_r)[0].tolist()
             res.violation(key + '/responses', case, f'responses()[{c.s_nodes[bad[0]].name}, pattern {bad[1]}] = {ref.CHARS[int(got_r[tuple(bad)])]} expected {ref.CHARS[int(exp_r[tuple(bad)])]}; markers {markers} chains {d.chains}\n{text}')
         if not np.array_equal(np.asarray(s.responses(c)), got_r): res.violation(key + '/responses-second-call', case, 'a second responses() call returns a different array')
+        # the same StilFile object asked for a second circuit of the same design (same name, same number of nodes) whose ports and flip-flops
+        # were created in another order: rows follow the circuit they are asked for
+        d2 = Design(d.chains, d.ff_order[::-1], d.n_pi, d.n_po, d.latch, d.io_perm + 3, d.kind)
+        c2 = d2.build()
+        e2t, e2r = expected(d2, c2, markers, pi_order, po_order, patterns)
+        if [n.name for n in c2.s_nodes] != [n.name for n in c.s_nodes]:
+            if not case.get('loc'):
+                g2 = np.asarray(s.tests(c2))
+                if g2.shape != e2t.shape or not np.array_equal(g2, e2t):
+                    res.violation(key + '/tests-second-circuit', case, f'tests() for a second circuit (rows {[n.name for n in c2.s_nodes]}) after one with rows {[n.name for n in c.s_nodes]} on the same StilFile object is wrong\n{text}')
+            g2r = np.asarray(s.responses(c2))
+            if g2r.shape != e2r.shape or not np.array_equal(g2r, e2r):
+                res.violation(key + '/responses-second-circuit', case, f'responses() for a second circuit with another port/state order on the same StilFile object is wrong\n{text}')
+            res.count('second_circuit_cases')
         if case.get('loc'):
             def check_loc(got, fill, key):
                 # fill: None, or the value an init_filter puts on every unassigned position of the initialisation patterns
@@ -426,6 +440,7 @@ def replay(case):
 
 
 def finish(agg, tier):
+    if not agg.counters.get('second_circuit_cases'): raise common.HarnessError('vacuity guard: no second circuit with another order')
     if not agg.counters.get('loc_init_filter_cases'): raise common.HarnessError('vacuity guard: init_filter never exercised')
     if not agg.counters.get('loc_single_cycle_patterns'): raise common.HarnessError('vacuity guard: no single-cycle pattern in a launch-on-capture set')
     need = ['cases', 'cases_with_markers', 'tests_cases', 'loc_cases']
